@@ -74,6 +74,8 @@ def parse_step_obs(chk, tag, states=range(0, 16), checks="none", callbacks=False
         for k in LISTS:
             add(3, k, 0)
             add(3, k, 2)
+        add(3, "INTLIST", 1, F["COMMENTS"])  # a pending annotation and a list assigned one value without braces
+        add(3, "STRLIST", 0, F["COMMENTS"])
         if callbacks:
             add(3, "INTLIST", 1, extra=("WITH_VALIDCB",))
     if 4 in S:
